@@ -17,6 +17,7 @@ import Fir.Proofs.SoftLemmas
 import Fir.Proofs.FloatLemmas
 import Fir.Props.C06
 import Fir.Proofs.IeeeLemmas
+import Fir.Proofs.SimdU8x4Lemmas
 
 namespace Fir.C02
 open Fir
@@ -181,5 +182,36 @@ theorem reassoc_err_ieee (x k : ℕ → ℚ) (t t' : Shape) (hperm : t.leaves.Pe
     |t.eval (flP 53) x k - t'.eval (flP 53) x k| ≤ (gam (1 / 2 ^ 53) t.depth + gam (1 / 2 ^ 53) t'.depth) * t.absSum x k :=
   reassoc_err (flP 53) (1 / 2 ^ 53) (by positivity) (flP_relErr 53 (by norm_num)) x k t t' hperm
 end IeeeInstances
+
+/-! ### one SIMD kernel modelled down to the bytes of its registers (U8x4, SSE4.1, one-row horizontal pass)
+
+    `Fir.SimdU8x4.pixel` follows `horiz_convolution_one_row` of src/convolution/u8x4/sse4.rs instruction by
+    instruction: 16-byte loads, `_mm_shuffle_epi8` with the seven masks `sh1 .. sh7` (re-extracted from the source
+    on every run), `_mm_madd_epi16`, `_mm_add_epi32`, the 8 / 4 / 2 / 1 coefficient steps, `srai`, `packs`,
+    `packus`.  Here the lane plumbing is *proved*, not sampled. -/
+
+/-- for every precision, every coefficient list (every remainder branch) and every source row the SIMD kernel
+    stores exactly the four bytes of the portable kernel: `clip8(2^(p-1) + Σ src[start+i].c · k[i])` -/
+theorem u8x4_sse4_one_row_eq_portable (p : Nat) (hp : p < 32) (row : List Int) (start : Nat) (ks : List Int) :
+    Fir.SimdU8x4.pixel p row start ks
+      = [clip8 (2 ^ (p - 1) + Fir.SimdU8x4.dotC row 0 ks start) p, clip8 (2 ^ (p - 1) + Fir.SimdU8x4.dotC row 1 ks start) p,
+         clip8 (2 ^ (p - 1) + Fir.SimdU8x4.dotC row 2 ks start) p, clip8 (2 ^ (p - 1) + Fir.SimdU8x4.dotC row 3 ks start) p] :=
+  Fir.Proofs.u8x4_sse4_pixel_eq_portable p hp row start ks
+
+/-- in the vocabulary of the portable model: channel `c` is `Fir.passInt .u8` of the same coefficients and the
+    same window of samples (bytes 0..255, coefficients in the i16 range) -/
+theorem u8x4_sse4_one_row_eq_passInt (p : Nat) (hp : p < 32) (row : List Int) (start : Nat) (ks : List Int) (c : Nat) (hc : c < 4)
+    (hk : ∀ k ∈ ks, -32768 ≤ k ∧ k ≤ 32767) (hb : ∀ i, 0 ≤ row.getD i 0 ∧ row.getD i 0 ≤ 255) :
+    (Fir.SimdU8x4.pixel p row start ks).getD c 0
+      = passInt .u8 ks ((List.range ks.length).map fun i => row.getD (4 * (start + i) + c) 0) p :=
+  Fir.Proofs.u8x4_sse4_pixel_eq_passInt p hp row start ks c hc hk hb
+
+/-- the kernel in the source is the one modelled: every intrinsic / helper call with its arguments, in order
+    (the masks themselves are not pinned - they are *used* by the model, so a changed mask changes the theorem) -/
+theorem u8x4_sse4_one_row_source_as_modelled : Fir.Gen.u8x4_sse4_one_row_skeleton =
+    "_mm_set1_epi32(1 << (PRECISION - 1)) ; chunks_exact(8) ; remainder() ; simd_utils::loadu_si128(k, 0) ; simd_utils::loadu_si128(src_row, x) ; _mm_shuffle_epi8(source, sh1) ; _mm_shuffle_epi8(ksource, sh2) ; _mm_add_epi32(sss, _mm_madd_epi16(pix, mmk)) ; _mm_shuffle_epi8(source, sh3) ; _mm_shuffle_epi8(ksource, sh4) ; _mm_add_epi32(sss, _mm_madd_epi16(pix, mmk)) ; simd_utils::loadu_si128(src_row, x + 4) ; _mm_shuffle_epi8(source, sh1) ; _mm_shuffle_epi8(ksource, sh5) ; _mm_add_epi32(sss, _mm_madd_epi16(pix, mmk)) ; _mm_shuffle_epi8(source, sh3) ; _mm_shuffle_epi8(ksource, sh6) ; _mm_add_epi32(sss, _mm_madd_epi16(pix, mmk)) ; chunks_exact(4) ; remainder() ; simd_utils::loadu_si128(src_row, x) ; simd_utils::loadl_epi64(k, 0) ; _mm_shuffle_epi8(source, sh1) ; _mm_shuffle_epi8(ksource, sh2) ; _mm_add_epi32(sss, _mm_madd_epi16(pix, mmk)) ; _mm_shuffle_epi8(source, sh3) ; _mm_shuffle_epi8(ksource, sh4) ; _mm_add_epi32(sss, _mm_madd_epi16(pix, mmk)) ; chunks_exact(2) ; remainder() ; simd_utils::mm_load_and_clone_i16x2(k) ; simd_utils::loadl_epi64(src_row, x) ; _mm_shuffle_epi8(source, sh7) ; _mm_add_epi32(sss, _mm_madd_epi16(pix, mmk)) ; first() ; simd_utils::mm_cvtepu8_epi32(src_row, x) ; _mm_set1_epi32(k as i32) ; _mm_add_epi32(sss, _mm_madd_epi16(pix, mmk)) ; _mm_srai_epi32::<PRECISION>(sss) ; _mm_packs_epi32(sss, sss) ; _mm_cvtsi128_si32(_mm_packus_epi16(sss, sss))" := by rfl
+
+example : Fir.SimdU8x4.pixel 12 [10, 20, 30, 40, 50, 60, 70, 80, 90, 100, 110, 120] 0 [2048, 1024, 1024] = [40, 50, 60, 70] := by
+  rw [u8x4_sse4_one_row_eq_portable 12 (by norm_num)]; decide
 
 end Fir.C02
